@@ -183,6 +183,7 @@ def run(ctx):
     c05.rule_scratch(ctx, rep, rule='R-SPELL-SCRATCH')
     # ---- the definition block keeps every definition it was given, in order, duplicates of a label included
     rule_definitions_kept(ctx, rep)
+    rule_definitions_rendered(ctx, rep, cfgs)
     # ---- fragments are assembled into lines without touching their text (no limit: the source's own line flow)
     rule_assembly(ctx, rep, cfgs)
     # ---- interpretation of every render method, under every option valuation
@@ -323,6 +324,76 @@ def rule_assembly(ctx, rep, cfgs):
         for p_ in sorted(set(problems)):
             rep.find('R-ASSEMBLY', f.short, p_.split(',')[0][:60], '%s under %s: %s' % (f.short, cfg.key(), p_),
                      loc(model.unit_of(f), f.node), witness='[a](/u "first  \nsecond")')
+
+
+def rule_definitions_rendered(ctx, rep, cfgs):
+    """Every link reference definition of a block is written out, in order, once - also two definitions of one label
+    (the second is shadowed, but it is source text): render_link_reference_definition_block is interpreted on a block
+    of two definitions, with the same label and with different labels, the per-definition rendering replaced by a
+    recorder."""
+    from ..interp import Interp, Oracle, Obj, Raised, enumerate_paths, GenVal
+    model = ctx.model
+    rule = 'R-MD-TOKENS'
+    blk = model.classes.get('mistletoe.markdown_renderer.LinkReferenceDefinitionBlock')
+    lrd = model.classes.get('mistletoe.markdown_renderer.LinkReferenceDefinition')
+    if blk is None or lrd is None:
+        raise AnalysisError('anchor vanished: markdown_renderer.LinkReferenceDefinitionBlock / LinkReferenceDefinition')
+    for cfg in cfgs:
+        hit = cfg.cls.lookup('render_link_reference_definition_block')
+        s2l = cfg.cls.lookup('span_to_lines')
+        if hit is None or hit[0] != 'method' or s2l is None:
+            raise AnalysisError('anchor vanished: MarkdownRenderer.render_link_reference_definition_block / span_to_lines')
+        f = hit[1]
+        for same_label in (False, True):
+            rep.instance(rule)
+            problems = set()
+            n = 0
+
+            def run_(oracle, same_label=same_label, cfg=cfg):
+                it = Interp(model, loop_bound=4)
+                it.reset_run(oracle)
+                T.install_string_hooks(it)
+                l1 = AbsStr(label='label1')
+                d = [Obj(lrd, {'label': l1, 'dest': AbsStr(label='dest1'), 'title': None}),
+                     Obj(lrd, {'label': l1 if same_label else AbsStr(label='label2'), 'dest': AbsStr(label='dest2'), 'title': None})]
+                seen = []
+
+                def rec(interp, fi, args, kwargs):
+                    toks = [a for a in args if isinstance(a, list)]
+                    seen.append([x for x in (toks[0] if toks else [])])
+                    return ['line']
+                it.func_hooks[s2l[1].qualname] = rec
+                # a function of a label alone (a normaliser) gives equal results for equal labels
+                orig = it.call_function
+
+                def spy(f_, args, kwargs, node=None):
+                    if len(args) == 1 and not kwargs and isinstance(args[0], AbsStr) and isinstance(f_, FuncInfo) and f_.cls is None:
+                        return AbsStr(prov=('m', f_.name, (), args[0].prov))
+                    return orig(f_, args, kwargs, node)
+                it.call_function = spy
+                token = Obj(blk, {'children': list(d)})
+                try:
+                    g = it.call_function(f, [T.clone_obj(cfg.obj), token], {'max_line_length': None})
+                    if isinstance(g, GenVal):
+                        list(g.items)
+                except Raised as r:
+                    return ('raise', r.exc.kind, d)
+                return ('ok', seen, d)
+            for trace, (kind, seen, d) in enumerate_paths(run_, 200):
+                n += 1
+                if kind != 'ok':
+                    problems.add('raises %s' % seen)
+                    continue
+                flat = [x for call in seen for x in call]
+                if not (len(flat) == 2 and flat[0] is d[0] and flat[1] is d[1]):
+                    problems.add('writes out %d of the 2 definitions%s' % (len([x for x in flat if any(x is y for y in d)]),
+                                                                            '' if len(flat) != 2 else ' in another order'))
+            rep.obligation(rule, not problems, {'method': f.short, 'config': cfg.key(), 'same label': same_label, 'problems': sorted(problems)})
+            for p_ in sorted(problems):
+                rep.find(rule, f.short, 'definitions-written:%s' % ('same-label' if same_label else 'two-labels'),
+                         '%s, given a block of two definitions %s, %s: link reference definitions are source text and are kept as '
+                         'they are' % (f.short, 'of the same label' if same_label else 'of different labels', p_),
+                         loc(model.unit_of(f), f.node), witness='[foo]: /first\n[foo]: /second\n')
 
 
 def rule_definitions_kept(ctx, rep):
